@@ -214,6 +214,14 @@ pub type PE<A, B> = WeightedPairError<A, B>;
 pub type ErrW = SE<LeafErr>;
 pub type ErrP2 = SE<PE<ErrW, ErrW>>;
 pub type ErrP3 = SE<PE<ErrP2, ErrW>>;
+pub type ErrP4 = SE<PE<ErrP3, ErrW>>;
+pub type ErrP5 = SE<PE<ErrP4, ErrW>>;
+pub type ErrP6 = SE<PE<ErrW, ErrP2>>;
+pub type ErrP7 = SE<PE<ErrP2, ErrP2>>;
+pub type ErrP8 = SE<PE<SE<ErrP2>, ErrW>>;
+pub type ErrP9 = SE<PE<ErrP6, ErrP2>>;
+type EW = SE<EmptyPopulation>;
+pub type ErrP10 = SE<PE<SE<PE<SE<PE<EW, EW>>, EW>>, SE<TournamentSizeError>>>;
 
 /// canonical form of a type-erased error: downcast through the catalogue of error types that the
 /// harness ever boxes
@@ -221,6 +229,6 @@ pub fn canon_dyn(e: &(dyn std::error::Error + 'static)) -> String {
     macro_rules! try_types {
         ($($t:ty),*) => { $( if let Some(x) = e.downcast_ref::<$t>() { return x.canon(); } )* };
     }
-    try_types!(EmptyPopulation, TournamentSizeError, LexicaseError, LeafErr, DynWeightedError, ErrW, ErrP2, ErrP3);
+    try_types!(EmptyPopulation, TournamentSizeError, LexicaseError, LeafErr, DynWeightedError, ErrW, ErrP2, ErrP3, ErrP4, ErrP5, ErrP6, ErrP7, ErrP8, ErrP9, ErrP10);
     format!("Unknown({e})")
 }
